@@ -71,9 +71,16 @@ def _make_objective(spec):
 
     elif kind == "holes":  # NaN on a slab of the domain (legal input: NaN is ordered as worst)
 
+        slab_lo, slab_hi = spec.get("nan_slab", (0.4, 0.6))
+
         def f(x):
             z = (np.asarray(x, dtype=float) - lo) / (hi - lo)
-            return float("nan") if 0.4 < z[0] < 0.6 else four(x)
+            return float("nan") if slab_lo < z[0] < slab_hi else four(x)
+
+    elif kind == "offset":  # large values, small gaps: relative tolerances in comparisons become visible
+
+        def f(x):
+            return 1000.0 + four(x)
 
     elif kind == "sphere":
 
@@ -173,7 +180,7 @@ def rand_spec(rng, **force):
         bounds = [[float(a), float(b)] for a, b in zip(lo, hi)]
     scale = float(np.mean([b[1] - b[0] for b in bounds]))
     maximize = bool(force.get("maximize", rng.random() < 0.35))
-    objective = force.get("objective", str(rng.choice(["four", "four", "plateau0", "sphere", "penalty"])))
+    objective = force.get("objective", str(rng.choice(["four", "four", "plateau0", "sphere", "penalty", "offset"])))
     hib = bool(force.get("hibernation", rng.random() < 0.3))
 
     def lsc():
@@ -194,7 +201,10 @@ def rand_spec(rng, **force):
         pool = ENGINES_ROOT if lvl == 0 else (ENGINES_LEAF if last else ENGINES_MID)
         pool = force.get("engines", {}).get(lvl, pool) if isinstance(force.get("engines"), dict) else pool
         k = str(rng.choice(pool))
-        L = {"engine": k, "generations": int(rng.integers(force.get("min_generations", 1), max(4, force.get("min_generations", 1) + 2))), "pop_size": int(rng.integers(5, 13)), "lsc": lsc(), "sample_std_dev": 0.1 * scale}
+        L = {"engine": k, "generations": int(rng.integers(force.get("min_generations", 1), max(4, force.get("min_generations", 1) + 2))), "pop_size": int(rng.integers(5, 13)), "lsc": lsc(),
+             # child populations are sampled around the seed with this standard deviation: small, of the
+             # order of the box, and several box widths (rejection sampling against the box must hold, C01)
+             "sample_std_dev": float(rng.choice([0.1, 0.1, 0.1, 0.5, 2.0])) * scale}
         if k in ("sea", "seax", "ga", "adapt", "mwea", "xsea"):
             L["k_elites"] = int(rng.integers(1, 3))
             L["mutation_std"] = 0.15 * scale
